@@ -106,6 +106,7 @@ type gen struct {
 	r      *Rng
 	maxEl  int // cap on slice lengths at nesting depth >= 1
 	bigTop bool
+	fixed  []int // when set: the slice length at each nesting depth (0 beyond)
 }
 
 // fill sets v to a random value. depth = slice nesting depth.
@@ -141,11 +142,20 @@ func (g *gen) fill(v reflect.Value, maxlen int, depth int) {
 		default:
 			n = r.Intn(g.maxEl + 1)
 		}
+		if g.fixed != nil {
+			n = 0
+			if depth < len(g.fixed) {
+				n = g.fixed[depth]
+			}
+			if maxlen > 0 && n > maxlen {
+				n = maxlen
+			}
+		}
 		if depth == 0 && g.bigTop && maxlen > 0 && maxlen <= 600 {
 			// boundary lengths around maxlen for small limits
 			n = maxlen - 1 + r.Intn(3)
 		}
-		if n == 0 && r.Bool() {
+		if n == 0 && g.fixed == nil && r.Bool() {
 			v.Set(reflect.Zero(v.Type())) // nil slice
 			return
 		}
@@ -216,6 +226,9 @@ func topVal(obj interface{}) string {
 
 func run(args []string) error {
 	f := ParseFlags("c21", args)
+	if f.Extra == "big" {
+		return runBig(f)
+	}
 	r := NewRng(f.Seed)
 	perType := f.Budget(3, 40)
 	o := NewOut()
@@ -229,6 +242,43 @@ func run(args []string) error {
 		names = append(names, Str(e.key))
 	}
 	hexs := func(b []byte) string { return fmt.Sprintf("%x", b) }
+
+	// the two decoders must also agree when they decode into objects that an EARLIER
+	// decode has filled (same bytes into objects in the same state)
+	var reuseCases []string
+	var reuseJSON []map[string]interface{}
+	usedG := map[int]interface{}{}
+	usedR := map[int]interface{}{}
+	addReuse := func(idx int, e entry, bs []byte, freshG, freshR interface{}, errG, errR error) {
+		if errG != nil || errR != nil {
+			return
+		}
+		dg, okg := usedG[idx]
+		dr, okr := usedR[idx]
+		if okg && okr {
+			var e1, e2 error
+			p1 := Guard(func() { _, e1 = e.c.Decode(bs, dg) })
+			p2 := Guard(func() { _, e2 = encoder.DeserializeRaw(bs, dr) })
+			// the property is AGREEMENT of the two decoders (both were given objects in
+			// the same state); whether a used object ends up equal to a fresh one is
+			// recorded as an observation only (on the unchanged tree a zero count leaves
+			// the old slice in place in BOTH decoders)
+			gOK := !p1 && !p2 && errKind(e1) == errKind(e2)
+			rOK := gOK && topVal(dg) == topVal(dr)
+			fresh := topVal(dg) == topVal(freshG) && topVal(dr) == topVal(freshR)
+			reuseCases = append(reuseCases, Tuple(fmt.Sprintf("%d%%nat", idx), B(gOK), B(rOK)))
+			reuseJSON = append(reuseJSON, map[string]interface{}{"type": e.key, "bytes": hexs(bs), "same_failure_kind": gOK, "same_value": rOK, "observation_equal_to_fresh_decode": fresh})
+			hist.Add(fmt.Sprintf("reuse:equal-to-fresh=%v", fresh))
+			if !gOK || !rOK {
+				// do not keep a corrupted object for the next round
+				delete(usedG, idx)
+				delete(usedR, idx)
+				return
+			}
+		} else {
+			usedG[idx], usedR[idx] = freshG, freshR
+		}
+	}
 
 	addDec := func(idx int, e entry, bs []byte, kind string) {
 		// generated decoder
@@ -269,6 +319,9 @@ func run(args []string) error {
 		}
 		genS := cresDec(pG, objG, nG, len(bs), errG)
 		refS := cresDec(pR, objR, nR, len(bs), errR)
+		if !pG && !pR && len(bs) <= 2000 {
+			addReuse(idx, e, bs, objG, objR, errG, errR)
+		}
 		refOpt := "None" // None = printed identically to the generated decoder's result
 		if refS != genS {
 			refOpt = "(Some " + refS + ")"
@@ -417,6 +470,27 @@ func run(args []string) error {
 				addDec(idx, e, append(append([]byte{}, zb...), 0, 0, 0, 0), "zero-count-appended")
 			}
 		}
+		// scripted "used object" sequence: full nested slices, then the same shape with
+		// empty nested slices, then fewer / no elements - all into the same two objects
+		{
+			delete(usedG, idx)
+			delete(usedR, idx)
+			for _, fx := range [][]int{{2, 2, 2}, {2, 0, 0}, {2, 2, 2}, {1, 0, 2}, {2, 1, 0}, {0}, {2, 2, 2}, {1, 1, 1}} {
+				obj := e.c.New()
+				(&gen{r: r, maxEl: 2, fixed: fx}).fill(reflect.ValueOf(obj).Elem(), 0, 0)
+				var rb []byte
+				if Guard(func() { rb = encoder.Serialize(obj) }) || len(rb) > 2000 {
+					continue
+				}
+				objG, objR := e.c.New(), e.c.New()
+				var errG, errR error
+				pG := Guard(func() { _, errG = e.c.Decode(rb, objG) })
+				pR := Guard(func() { _, errR = encoder.DeserializeRaw(rb, objR) })
+				if !pG && !pR {
+					addReuse(idx, e, rb, objG, objR, errG, errR)
+				}
+			}
+		}
 		// pure garbage
 		for k := 0; k < perType/3+1; k++ {
 			addDec(idx, e, r.Bytes(r.Intn(40)), "random")
@@ -425,10 +499,11 @@ func run(args []string) error {
 	o.Raw("Definition type_names : list string := " + List(names) + ".\n")
 	o.Def("cases_enc", "nat * val * cres (list Z) * option Z * Z * Z", encCases)
 	o.Def("cases_dec", "nat * list Z * cres (val * Z) * option (cres (val * Z)) * cres unit * option (cres (list Z))", decCases)
-	o.Side["rule"] = "for each of the generated codecs: random values (ints boundary-biased, nil/empty/short slices, lengths maxlen-1..maxlen+1 for limits <= 600) through generated encoder, reference Serialize and both size functions; byte strings = valid encodings, truncations (every offset when short), appended bytes, single-byte mutations (incl. count prefixes), explicit zero count appended, random garbage, through generated decode, reference DeserializeRaw, generated exact decode + re-encode; non-trivial = distinct (type, bytes)"
+	o.Def("cases_reuse", "nat * bool * bool", reuseCases)
+	o.Side["rule"] = "for each of the generated codecs: random values (ints boundary-biased, nil/empty/short slices, lengths maxlen-1..maxlen+1 for limits <= 600) through generated encoder, reference Serialize and both size functions; byte strings = valid encodings, truncations (every offset when short), appended bytes, single-byte mutations (incl. count prefixes), explicit zero count appended, random garbage, through generated decode, reference DeserializeRaw, generated exact decode + re-encode; every successfully decoded byte string is also decoded into the object left by the previous successful decode of that type by both decoders, which must agree; non-trivial = distinct (type, bytes)"
 	o.Side["distribution"] = hist.Sorted()
 	o.Side["samples"] = samples
-	o.Side["cases"] = map[string]interface{}{"enc": encJSON, "dec": decJSON}
+	o.Side["cases"] = map[string]interface{}{"enc": encJSON, "dec": decJSON, "reuse": reuseJSON}
 	o.Side["types"] = len(reg)
 	return o.Write(f.Out, f.JSON)
 }
